@@ -45,8 +45,10 @@ Inductive op :=
 | At (p : path) (k : kind) (id : N)      (* object_server.at(p, <instance id of interface k>) *)
 | Rm (p : path) (k : kind).              (* object_server.remove::<k>(p) *)
 
-(* observable result of an operation: Ok(bool), Err(InterfaceNotFound), panic *)
-Inductive sres := RBool (b : bool) | RErr | RPanic.
+(* observable result of an operation: Ok(bool), Err(InterfaceNotFound), panic.
+   RDone = a removal succeeded, whatever flag it returned ("whether the object was destroyed" is
+   not part of the property: it is a statement about nodes, which the flat view does not have) *)
+Inductive sres := RBool (b : bool) | RDone | RErr | RPanic.
 
 (* property name -> value, as returned by Properties.GetAll / carried by InterfacesAdded *)
 Definition props := list (bytes * N).
